@@ -57,6 +57,7 @@ SGX_TARGETS = ["quote", "quote-sig", "att-key", "qe-report", "qe-sig", "auth-dat
                "cert:quoting_enclave", "cert:platform_ca", "custom-in-quote", "custom-tail",
                "signer-message", "pubkey", "root"]
 REQUIRED_LABELS = {t: ["plat:ledger", "plat:sgx", "unaltered:ok", "altered:refused", "legacy",
+                       "refresh",
                        "pages>=2"] + ["alter:" + x for x in LEDGER_TARGETS + SGX_TARGETS]
                    for t in ("quick", "thorough")}
 h32 = st.binary(min_size=32, max_size=32)
@@ -82,7 +83,13 @@ def cases(draw, tier):
          "inter": draw(st.integers(0, 2 ** 64)),
          "auth": draw(st.one_of(st.binary(min_size=1, max_size=40),
                                 st.binary(min_size=1, max_size=1000))),
-         "third_cert": draw(st.booleans()), "alter": None}
+         "third_cert": draw(st.booleans()), "alter": None,
+         "refresh": None}
+    if plat == "ledger" and draw(st.integers(0, 2)) == 0:
+        # a second attestation run that starts from the file the first one wrote
+        c["refresh"] = {"ud": draw(h32), "best": draw(h32),
+                        "tx": draw(st.binary(min_size=8, max_size=8)),
+                        "ts": draw(st.integers(0, 2 ** 64 - 1))}
     if plat == "sgx":
         c["page"] = draw(st.sampled_from([100, 200, 250]))
     if draw(st.integers(0, 2)) > 0:
@@ -212,6 +219,22 @@ def run_case(c):
                     failures.append(("attestation", e))
                 else:
                     reload_equal(att_file, "attestation")
+                if not failures and c.get("refresh"):
+                    r = c["refresh"]
+                    g.s.update(best=r["best"], tx=r["tx"], ts=r["ts"])
+                    c = dict(c, ud=r["ud"], best=r["best"], tx=r["tx"], ts=r["ts"])
+                    power_cycle(w)
+                    att_file2 = os.path.join(d, "attestation2.json")
+                    opts = types.SimpleNamespace(
+                        output_file_path=att_file2, attestation_certificate_file_path=att_file,
+                        **dict(base, attestation_ud_source=r["ud"].hex()))
+                    e, out = call(latt.do_attestation, opts)
+                    if e is not None:
+                        failures.append(("attestation-refresh", e))
+                    else:
+                        reload_equal(att_file2, "attestation-refresh")
+                        att_file = att_file2
+                    labels.append("refresh")
         else:
             att_file = os.path.join(d, "attestation.json")
             w.mode = SIGNER
